@@ -116,8 +116,8 @@ def Oracle.env (o : Oracle) (mechs : List Mech) : Env where
     | some a => a.route
     | none => [missLink]
   linkEnd l := match o.linkEnd.find? (fun a => a.link == l) with
-    | some a => if a.kind == "raise" then .error else if a.kind == "none" then .ok none else .ok a.pos
-    | none => .rejected
+    | some a => if a.kind == "ok" then a.pos else none
+    | none => some ⟨999999999, 999999999⟩
   mechKnown i := (mechOf mechs i).isSome
   isFull v := match mechOf mechs v.mech with
     | some m => m.isFull v.en
